@@ -6,7 +6,10 @@ EXTRA below runs as well (some defects are visible through a neighbouring proper
 import json, os, subprocess, sys, tempfile, time
 
 ROOT = os.path.dirname(os.path.dirname(os.path.abspath(__file__)))
-EXTRA = {"C07-a": ["C04"], "C08-b": [], "C02-b": ["C20", "C06"], "C06-b": ["C03"], "C11-b": ["C03"], "C19-b": ["C10"], "C09-b": ["C18"]}
+EXTRA = {"C07-a": ["C04"], "C08-b": [], "C02-b": ["C20", "C06"], "C06-b": ["C03"], "C11-b": ["C03"], "C19-b": ["C10"], "C09-b": ["C18"],
+         "C12-c": ["C13"], "C12-d": ["C13"], "C15-d": ["C05"]}
+NOWRITE = "--no-write" in sys.argv
+sys.argv = [a for a in sys.argv if a != "--no-write"]
 names = sys.argv[1:] or sorted(d for d in os.listdir(os.path.join(ROOT, "seeded")) if os.path.isdir(os.path.join(ROOT, "seeded", d)))
 rows = []
 for name in names:
@@ -38,6 +41,8 @@ for name in names:
     finally:
         subprocess.run(["git", "-C", "/repo", "worktree", "remove", "--force", wt], capture_output=True)
         subprocess.run(["rm", "-rf", out])
+if NOWRITE:
+    sys.exit(0)
 with open(os.path.join(ROOT, "seeded", "RESULTS.md"), "w") as f:
     f.write("# Seeded defects versus the quick checks\n\nEach defect was produced by a fresh sub-agent that saw only the property text, confirmed by "
             "tools/confirm_seed.py (applies, builds, existing suite passes, demonstration fails with it and passes without it), and run here "
